@@ -6,5 +6,6 @@ CONSTANTS
   MaxEvents = 2
 INIT Init
 NEXT Next
+VIEW View
 INVARIANTS TypeOK PSizeFormula PMonotone PConsistency PLookbackSuperset PLookbackMembers
 CHECK_DEADLOCK FALSE
